@@ -24,7 +24,25 @@ pub enum SchedKind {
 #[derive(Clone, Debug, Serialize, Deserialize)]
 pub struct Case {
     pub prog: Program,
+    /// when present the body is this async program (futures, JoinHandles, abort, wakers) instead of `prog`
+    #[serde(default)]
+    pub aprog: Option<super::c17::AProg>,
     pub sched: SchedKind,
+}
+
+type BodyFn = Arc<dyn Fn() + Send + Sync>;
+
+fn body_of(case: &Case) -> BodyFn {
+    match &case.aprog {
+        Some(a) => {
+            let a = Arc::new(a.clone());
+            Arc::new(move || super::c17::run_prog(&a))
+        }
+        None => {
+            let p = Arc::new(case.prog.clone());
+            Arc::new(move || run_program(&p))
+        }
+    }
 }
 
 pub fn build(kind: &SchedKind) -> Box<dyn Scheduler + Send> {
@@ -70,7 +88,7 @@ pub fn check() -> Check {
 }
 
 fn batches(t: Tier) -> Vec<Batch> {
-    vec![Batch::new("replay", t.pick(6000, 150000), 200), Batch::new("failing", t.pick(3000, 60000), 200)]
+    vec![Batch::new("replay", t.pick(6000, 150000), 200), Batch::new("failing", t.pick(3000, 60000), 200), Batch::new("async", t.pick(4000, 80000), 200)]
 }
 
 fn gen_case(batch: &str, rng: &mut Rng) -> Case {
@@ -80,13 +98,16 @@ fn gen_case(batch: &str, rng: &mut Rng) -> Case {
         cfg.fail = true;
         cfg.join_prob = 4;
     }
-    Case { prog: gen_program(rng, &cfg), sched: gen_sched(rng) }
+    if batch == "async" {
+        return Case { prog: Program::default(), aprog: Some(super::c17::gen_prog(rng)), sched: gen_sched(rng) };
+    }
+    Case { prog: gen_program(rng, &cfg), aprog: None, sched: gen_sched(rng) }
 }
 
-fn run_with(kind: &SchedKind, prog: &Arc<Program>) -> (Ending, RunTrace) {
-    let p = prog.clone();
+fn run_with(kind: &SchedKind, body: &BodyFn) -> (Ending, RunTrace) {
+    let p = body.clone();
     let _ = take_monitor_violations();
-    let r = run_recorded(build(kind), quiet_config(), move || run_program(&p));
+    let r = run_recorded(build(kind), quiet_config(), move || p());
     let _ = take_monitor_violations();
     r
 }
@@ -121,7 +142,7 @@ fn same_exec(a: &ExecTrace, b: &ExecTrace) -> Option<String> {
 }
 
 fn check_case(case: &Case, out: &mut RunOut, rng_seed: u64) {
-    let prog = Arc::new(case.prog.clone());
+    let prog = body_of(case);
     let (ending, rt) = run_with(&case.sched, &prog);
     let name = match &case.sched {
         SchedKind::Random(..) => "sched_Random",
@@ -164,7 +185,7 @@ fn check_case(case: &Case, out: &mut RunOut, rng_seed: u64) {
             continue;
         }
         if ex.switches() > 0 {
-            out.distinct.push(hash_debug(&(&case.prog, &recorded)));
+            out.distinct.push(hash_debug(&(&case.prog, format!("{:?}", case.aprog), &recorded)));
         }
         if ex.draws().len() >= 4 {
             out.count("execution_with_4+_draws", 1);
@@ -202,7 +223,7 @@ fn check_case(case: &Case, out: &mut RunOut, rng_seed: u64) {
         };
         let p2 = prog.clone();
         let _ = take_monitor_violations();
-        let (rend, rrt) = run_recorded(replay_sched, quiet_config(), move || run_program(&p2));
+        let (rend, rrt) = run_recorded(replay_sched, quiet_config(), move || p2());
         let _ = take_monitor_violations();
         out.evals += 1;
         let rex = match rrt.execs.first() {
@@ -239,7 +260,7 @@ fn check_case(case: &Case, out: &mut RunOut, rng_seed: u64) {
         let p2 = prog.clone();
         let inner = build(&case.sched);
         let _ = take_monitor_violations();
-        let (nend, nrt) = run_recorded(UncontrolledNondeterminismCheckScheduler::new(inner), quiet_config(), move || run_program(&p2));
+        let (nend, nrt) = run_recorded(UncontrolledNondeterminismCheckScheduler::new(inner), quiet_config(), move || p2());
         let _ = take_monitor_violations();
         out.count("nondet_checker_runs", 1);
         out.evals += nrt.execs.len() as u64;
@@ -253,7 +274,7 @@ fn check_case(case: &Case, out: &mut RunOut, rng_seed: u64) {
     }
     if out.sample.is_none() && nexec > 0 && rt.execs[0].switches() > 1 {
         let r = rt.execs[0].recorded.clone().unwrap_or_default();
-        out.sample = Some(json!({"program": case.prog, "scheduler": format!("{:?}", case.sched), "recorded_schedule": serialize_schedule(&vec_to_schedule(r.0, &r.1)), "ending": format!("{:?}", ending)}));
+        out.sample = Some(json!({"program": case.prog, "async_program": case.aprog, "scheduler": format!("{:?}", case.sched), "recorded_schedule": serialize_schedule(&vec_to_schedule(r.0, &r.1)), "ending": format!("{:?}", ending)}));
     }
 }
 
